@@ -21,7 +21,7 @@ def parseVal (j : Json) : R Val := do
 
 def parseKind (s : String) : R Kind :=
   match s with
-  | "f" => pure .float | "i" => pure .int | "b" => pure .bool | "U" => pure .str
+  | "f" => pure .float | "i" => pure .int | "b" => pure .bool | "U" => pure .str | "O" => pure .obj
   | _ => throw s!"bad kind {s}"
 
 def parseOptKind (j : Json) (k : String) : R (Option Kind) :=
@@ -75,7 +75,7 @@ def parseStore (j : Json) : R Store := do
     | some n, some sr => do pure ((← n.getStr?), (← parseSeries sr))
     | _, _ => throw "bad var entry"
   let attrs ← (← arr j "attrs").toList.mapM (·.getStr?)
-  pure { span := span, spanKind := kind, getLoc := getLoc, vars := vars, hidden := ← nat j "hidden",
+  pure { span := span, spanKind := kind, getLoc := getLoc, vars := vars, nonNames := ← (← arr j "nonNames").toList.mapM (·.getStr?),
          attrs := attrs, strict := ← bool j "strict", defaultKind := ← parseOptKind j "defaultKind",
          extraSize := ← nat j "extraSize", extraBytes := ← nat j "extraBytes",
          extraKeys := ← (match optObj j "extraKeys" with
@@ -96,6 +96,7 @@ inductive Item where
   | op (o : Op)
   | getItem (name : String)
   | getAttr (name : String)
+  | contains (name : String)
   | getPos (name : String) (i : Int)
   | getLabel (name : String) (label : Nat)
   | getLabelSlice (name : String) (a b : Option Nat) (step : Option Int)
@@ -129,6 +130,7 @@ def parseItem (j : Json) : R Item := do
   | "badKey" => do pure (.op (.badKey (← bool j "tuple")))
   | "getItem" => do pure (.getItem (← str j "name"))
   | "getAttr" => do pure (.getAttr (← str j "name"))
+  | "contains" => do pure (.contains (← str j "name"))
   | "getPos" => do pure (.getPos (← str j "name") (← int j "i"))
   | "getLabel" => do pure (.getLabel (← str j "name") (← nat j "label"))
   | "getLabelSlice" => do
@@ -147,7 +149,7 @@ def valStr : Val → String
   | .s v => "s" ++ hexOf v
 
 def kindStr : Kind → String
-  | .float => "f" | .int => "i" | .bool => "b" | .str => "U"
+  | .float => "f" | .int => "i" | .bool => "b" | .str => "U" | .obj => "O"
 
 def dtypeStr (d : Dtype) : String := kindStr d.kind ++ toString d.width
 
@@ -172,7 +174,7 @@ def seriesStr (p : String × Series) : String :=
   p.1 ++ ":" ++ dtypeStr p.2.dtype ++ ":" ++ shapeStr p.2.shape ++ ":" ++ joinWith "," (p.2.data.map valStr)
 
 def stateStr (s : Store) : String :=
-  "index=" ++ joinWith "," s.index ++ "|attrs=" ++ joinWith "," s.attrs ++
+  "index=" ++ joinWith "," s.index ++ "|names=" ++ joinWith "," s.names ++ "|attrs=" ++ joinWith "," s.attrs ++
   "|strict=" ++ (if s.strict then "T" else "F") ++ "|size=" ++ toString (size s) ++
   "|nbytes=" ++ toString (nbytes s) ++
   "|vshape=" ++ (match valuesShape s with
@@ -193,6 +195,7 @@ def runItems (al : Alias.AMap String) : Store → List Item → List String → 
       ((outcomeStr (aStep Cfg.current al s o).2 ++ "|" ++ stateStr (aStep Cfg.current al s o).1) :: acc)
   | s, .getItem n :: rest, acc => runItems al s rest (readStr (aGetItem al s n) :: acc)
   | s, .getAttr n :: rest, acc => runItems al s rest (readStr (aGetAttr al s n) :: acc)
+  | s, .contains n :: rest, acc => runItems al s rest ((if contains s n then "c:T" else "c:F") :: acc)
   | s, .getPos n i :: rest, acc => runItems al s rest (readStr (aGetPos al s n i) :: acc)
   | s, .getLabel n l :: rest, acc => runItems al s rest (readStr (aGetLabel al s n l) :: acc)
   | s, .getLabelSlice n a b st :: rest, acc => runItems al s rest (readStr (aGetLabelSlice al s n a b st) :: acc)
